@@ -19,6 +19,7 @@ from ..flow import NORMAL
 from ..flow import Outcome
 from ..core import RuleResult
 from ..core import norm
+from ..model import ancestors
 from ..model import own_nodes
 
 SWITCHES = {'url': 'not a value modifier: selects absolute_url() of the '
@@ -282,6 +283,11 @@ def rule_stages(model):
                    if isinstance(n, ast.Assign) and
                    isinstance(n.targets[0], ast.Name) and
                    norm(n.value) == 'self.fmt'}
+    size_aliases = {n.targets[0].id for n in own_nodes(fi.node)
+                    if isinstance(n, ast.Assign) and
+                    isinstance(n.targets[0], ast.Name) and any(
+                        isinstance(x, ast.Constant) and x.value == 'size'
+                        for x in ast.walk(n.value))}
     for i, st in enumerate(body):
         for n in ast.walk(st):
             if isinstance(n, ast.Return) and n.value is not None and \
@@ -302,7 +308,10 @@ def rule_stages(model):
             idx.setdefault('cformat', i)
         if isinstance(st, ast.For) and mentions(st.iter, 'modifiers'):
             idx.setdefault('modifiers', i)
-        if isinstance(st, ast.If) and mentions(st.test, "'size' in"):
+        if isinstance(st, ast.If) and (
+                mentions(st.test, "'size'") or any(
+                    isinstance(x, ast.Name) and x.id in size_aliases
+                    for x in ast.walk(st.test))):
             idx.setdefault('size', i)
         if isinstance(st, ast.Return):
             idx['final'] = i
@@ -503,11 +512,163 @@ def rule_membership(model):
                           'default when it is merely false: an explicitly '
                           'empty value (etc="", null="") is ignored',
                           node=n, ctx=ren)
+    # an option value bound to a name (x = args.get('size')) and then
+    # tested for truth: a false value (size=0, etc="") counts as absent
+    opt = {}
+    for n in own_nodes(ren.node):
+        if isinstance(n, ast.Assign) and len(n.targets) == 1 and \
+                isinstance(n.targets[0], ast.Name):
+            v = n.value
+            key = None
+            if isinstance(v, ast.Call) and isinstance(
+                    v.func, ast.Attribute) and v.func.attr == 'get' and \
+                    norm(v.func.value) in names and v.args and \
+                    isinstance(v.args[0], ast.Constant):
+                key = v.args[0].value
+            if key is not None:
+                opt.setdefault(n.targets[0].id, set()).add(key)
+    for n in own_nodes(ren.node):
+        tests = []
+        if isinstance(n, (ast.If, ast.While, ast.IfExp)):
+            tests = [n.test]
+        for t in tests:
+            leaves = [t]
+            while leaves:
+                x = leaves.pop()
+                if isinstance(x, ast.BoolOp):
+                    leaves += x.values
+                elif isinstance(x, ast.UnaryOp) and isinstance(
+                        x.op, ast.Not):
+                    leaves.append(x.operand)
+                elif isinstance(x, ast.Name) and x.id in opt and all(
+                        isinstance(d, ast.AST) and (
+                            (isinstance(d, ast.Call) and isinstance(
+                                d.func, ast.Attribute) and
+                             d.func.attr == 'get') or any(
+                                isinstance(y, ast.Name) and y.id == x.id
+                                for y in ast.walk(d)))
+                        for d in model.local_defs(ren, x.id)):
+                    keys = sorted(opt[x.id])
+                    r.instance(ren.where, n.test, 'TRUTHINESS')
+                    r.finding(ren.where, f'if {x.id}  ({keys[0]}=)',
+                              f'the {keys[0]}= option is consulted by the '
+                              'truth of its value: a false value '
+                              f'({keys[0]}=0, {keys[0]}="") is treated '
+                              'as if the option was not given', node=n,
+                              ctx=ren)
     r.require_floor(5)
     return r
 
 
-RULES = [rule_table, rule_stages, rule_agreements, rule_membership]
+def rule_missing(model):
+    r = RuleResult('C15.R8', 'missing= replaces only an undefined name: '
+                   'its value is returned under a membership test of the '
+                   'name, never from an exception handler around the '
+                   'evaluation of the value (a KeyError raised while a '
+                   'defined value is called / rendered is not "undefined")')
+    ren = model.func('DT_Var', 'Var.render')
+    n_ret = 0
+    for n in own_nodes(ren.node):
+        if not (isinstance(n, ast.Return) and n.value is not None and any(
+                isinstance(x, ast.Constant) and x.value == 'missing'
+                for x in ast.walk(n.value))):
+            continue
+        n_ret += 1
+        handler = None
+        checked = False
+        for anc in ancestors(n):
+            if isinstance(anc, ast.If) and handler is None and \
+                    'args[0]' in norm(anc.test):
+                checked = True
+            if isinstance(anc, ast.ExceptHandler):
+                handler = anc
+                break
+            if isinstance(anc, (ast.FunctionDef, ast.AsyncFunctionDef)):
+                break
+        if handler is None:
+            r.instance(ren.where, n, 'under a membership test')
+            continue
+        tr = handler._dt_parent
+        evaluates = any(
+            (isinstance(x, ast.Subscript) and isinstance(x.ctx, ast.Load)
+             and not isinstance(x.slice, ast.Constant)) or
+            (isinstance(x, ast.Call) and isinstance(x.func, ast.Attribute)
+             and x.func.attr in ('getitem', '__getitem__'))
+            for st in tr.body for x in ast.walk(st))
+        r.instance(ren.where, n, 'in an exception handler'
+                   + (' (key compared)' if checked else ''))
+        if evaluates and not checked:
+            r.finding(ren.where, n, 'missing= is returned from an '
+                      f'`except {norm(handler.type) if handler.type else ""}'
+                      '` around the lookup that also calls / renders the '
+                      'value: a KeyError raised inside a defined value is '
+                      'silently replaced by the missing= text', node=n,
+                      ctx=ren)
+    if not n_ret:
+        raise AnalysisError('Var.render: missing= stage not found')
+    r.floor = 1
+    return r
+
+
+# the documented pipeline order of the value modifiers
+PIPELINE = ['html_quote', 'url_quote', 'url_quote_plus', 'url_unquote',
+            'url_unquote_plus', 'newline_to_br', 'lower', 'upper',
+            'capitalize', 'spacify', 'thousands_commas', 'sql_quote']
+# pairs whose order does not matter (f(g(x)) == g(f(x)) for every text):
+# exchanging them is not a change of the pipeline
+COMMUTE = {
+    frozenset(p) for p in (
+        # digit grouping inserts commas between digits only; case mapping
+        # and underscore replacement touch neither digits nor commas
+        ('thousands_commas', 'lower'), ('thousands_commas', 'upper'),
+        ('thousands_commas', 'capitalize'), ('thousands_commas', 'spacify'),
+        # "_" -> " " is independent of the case of the other characters
+        ('spacify', 'lower'), ('spacify', 'upper'),
+        ('spacify', 'capitalize'),
+        # the inserted "<br />" is lower case already
+        ('newline_to_br', 'lower'),
+    )}
+
+
+def rule_pipeline_order(model):
+    r = RuleResult('C15.R7', 'the relative order of any two value '
+                   'modifiers that do not commute is the documented one '
+                   '(in particular sql_quote runs after every modifier '
+                   'that can produce a quote, url_unquote / '
+                   'url_unquote_plus)')
+    m, node, names = table_entries(model)
+    pos = {n: i for i, n in enumerate(names)}
+    n_pairs = 0
+    early = {}
+    for i, a in enumerate(PIPELINE):
+        for b in PIPELINE[i + 1:]:
+            if a not in pos or b not in pos or \
+                    frozenset((a, b)) in COMMUTE:
+                continue
+            n_pairs += 1
+            if pos[a] > pos[b]:
+                early.setdefault(b, []).append(a)
+    for b, before in sorted(early.items()):
+        why = ''
+        if b == 'sql_quote' and {'url_unquote', 'url_unquote_plus'} & \
+                set(before):
+            why = (': the value can contain a lone single quote after SQL '
+                   'quoting (a %27 unquoted afterwards) and terminate a '
+                   'SQL string literal')
+        r.finding('DT_Var:modifiers', f'{b} before {", ".join(before)}',
+                  f'the modifier table applies {b} before '
+                  f'{", ".join(before)}; the documented pipeline applies '
+                  f'{b} after them' + why, node=node, ctx=m)
+    r.instance('DT_Var:modifiers', ' < '.join(names),
+               f'{n_pairs} ordered pairs compared')
+    if n_pairs < 40:
+        raise AnalysisError(f'C15.R7: only {n_pairs} modifier pairs found')
+    r.floor = 1
+    return r
+
+
+RULES = [rule_table, rule_stages, rule_agreements, rule_membership,
+         rule_pipeline_order, rule_missing]
 EXPLANATION = (
     'Table queries on the modifier table and the option grammar of '
     'dtml-var, iteration-source query, statement-order check of the stage '
